@@ -22,7 +22,7 @@ HIST_RULE = ("plans are generated from VERIF_SEED by the hist generator (1-3 doc
 CHECKS = {
     "C04": {
         "level": "exploration",
-        "classes": ["C04"],
+        "classes": ["C04", "C14:unterminated-string"],
         "rule": HIST_RULE,
         "budget_s": {"quick": 70, "thorough": 900},
         "batches": [
@@ -289,8 +289,12 @@ CHECKS["C20"] = {
     "batches": [
         {"family": "conc", "mode": "parked", "kind": "conc", "cfgs": {"quick": ["A", "B"], "thorough": ["A", "B", "H", "G"]},
          "runs": {"quick": 1400, "thorough": 60000}},
+        # library state that is created on first use (function-local statics): each plan runs in a forked child in
+        # which that state does not exist yet; the tasks race for its creation
+        {"family": "conc", "mode": "cold", "kind": "conc", "cfgs": {"quick": ["A"], "thorough": ["A", "B"]},
+         "runs": {"quick": 96, "thorough": 4000}, "chunks": {"quick": 4, "thorough": 16}},
     ],
-    "probes": ["fault.preemptions_fired", "conc.switches", "op.shr"],
+    "probes": ["fault.preemptions_fired", "conc.switches", "op.shr", "conc.cold_first_use_checked"],
     "components": CONC_COMPONENTS,
     "assumptions": ["state written and read inside one basic block is below the scheduler's resolution",
                     "the free-running ThreadSanitizer stage is auxiliary (bin/check --selftest tsan), never the deciding step"],
